@@ -21,6 +21,7 @@ DOC = {
  "C08.R4": "= C06.R5: the elected cleanup contains name unregister, pid demonitor/unregister (cluster), pg demonitor_all and leave_all",
  "C08.R5": "ActorPortSet::drop calls close() and a draining try_recv() loop on every receiver-typed field of the struct",
  "C08.R6": "thread-local spawner: the start task travels only inside the abort-on-drop wrapper (reply element type, wrap-before-send); the wrapper is alive across the caller's await and disarmed only after it; its Drop aborts when armed",
+ "C08.R8": "= C11.R1 + C11.R2: `it is in no process group` -- group/monitor insertions re-check the status under the actor's relations lock, and the exit drains the reverse index under that lock after publishing the status",
  "C08.R7": "= C01.R3 + C04.R7: no loop task unless pre_start returned Ok; mark_running only after pre_start Ok (no event for a failed start)",
 }
 
@@ -177,6 +178,12 @@ def r6(run, db):
         rxa = [a for a in awaits(f) if a is not (aw[0] if aw else None)]
 
 
+def r8(run, db):
+    from . import c11
+    c11.r1(run, db)
+    c11.r2(run, db)
+
+
 def r7(run, db):
     c01.r3(run, db)
     from . import c04
@@ -185,4 +192,4 @@ def r7(run, db):
 
 Q = ["dflt", "rc"]
 TH = ["dflt", "rc", "atr", "astd", "mon"]
-RULES = [{"id": "C08.R%d" % i, "fn": f, "quick": Q, "thorough": TH} for i, f in enumerate([r1, r2, r3, r4, r5, r6, r7], 1)]
+RULES = [{"id": "C08.R%d" % i, "fn": f, "quick": Q, "thorough": TH} for i, f in enumerate([r1, r2, r3, r4, r5, r6, r7, r8], 1)]
